@@ -1,7 +1,7 @@
 #!/bin/sh
 # tools/seed_matrix.sh [seed dirs...] : run every filed seed against its property's quick check (scratch copy, PB_SRC);
 # prints one line per seed: CAUGHT (exit 1 + VIOLATION) / MISSED (exit 0) / INCONCLUSIVE (exit 3) / NOAPPLY
-cd /verif
+cd "$(dirname "$0")/.."
 SEEDS="${@:-$(ls -d seeded/C*-* | sort)}"
 for d in $SEEDS; do
   name=$(basename $d); prop=${name%-*}
